@@ -318,12 +318,113 @@ def handleLayerOf (a : Args) : String :=
     | .ok t => tagOpt t
     | .error k => "ERR:" ++ errName k)
 
+
+/-! ### labels -/
+
+def handleLabel (a : Args) : String :=
+  let nodes := (graphOf a).nodes
+  let aliases : List (Str × Str) := (splitList "," (a.get "al")).filterMap fun p =>
+    match p.splitOn ">" with
+    | [k, v] => some (dec k, dec v)
+    | _ => none
+  let mAns := match plotLabels nodes aliases with
+    | .error (k, who) => s!"ERR:{errName k}:{enc who}"
+    | .ok ls => "OK:" ++ joinStr "," (canonSet (ls.map fun (l : Str × Str) => enc l.1 ++ ">" ++ enc l.2))
+  let sal : PtaSpec.Aliases := aliases.map fun p => (toName p.1, p.2)
+  let sAns := if aliases.all (fun p => nodes.contains p.1) then
+      "OK:" ++ joinStr "," (canonSet (nodes.map fun n => enc n ++ ">" ++ enc (PtaSpec.label sal (toName n))))
+    else "ERR:lookupError"
+  let kw := (splitList "," (a.get "kw")).map fun k =>
+    if k == "spacing" then KwArg.spacing else if k == "aliases" then .aliases else .other (dec k)
+  let kwOut := joinStr "," (canonSet ((drawKwargs kw).map fun k => match k with
+    | .spacing => "spacing" | .aliases => "aliases" | .pos => "pos" | .labels => "labels" | .other n => enc n))
+  s!"M={mAns} S={sAns} K={kwOut}"
+
+
+/-! ### scans -/
+
+def parseStmt (s : String) : Option ImportStmt :=
+  match s.splitOn "~" with
+  | "i" :: names => some (.imp (names.map dec))
+  | "f" :: lvl :: m :: names =>
+    some (.impFrom (if m == "%n" then none else some (dec m)) (names.map dec) (lvl.toNat?.getD 0))
+  | _ => none
+
+def parseEntry (s : String) : Option (Entry × Bool) :=
+  match s.splitOn "|" with
+  | rel :: kind :: rest =>
+    let comps := (splitList "/" rel).map dec
+    let stmts := match rest with
+      | [st] => (splitList "+" st).filterMap parseStmt
+      | _ => []
+    some ({ rel := comps, isDir := kind.startsWith "d", stmts := stmts }, kind.endsWith "x")
+  | _ => none
+
+def parsePatterns (v : String) : Patterns :=
+  match v.splitOn ":" with
+  | ["G", ps] => .globs (strList ps)
+  | ["G"] => .globs []
+  | ["R", ps] => .regexes (strList ps)
+  | _ => .regexes []
+
+def renderGraph (g : PGraph Str) : String :=
+  s!"nodes:{joinStr "," (canonSet (g.nodes.map enc))}|imps:{renderPairs g.importPairs}|hier:{renderPairs g.hierPairs}"
+
+def toSStmt : ImportStmt → PtaSpec.SStmt
+  | .imp names => .imp (names.map toName)
+  | .impFrom m names lvl => .impFrom (m.map toName) names lvl
+
+def handleScan (a : Args) : String :=
+  let base := dec (a.get "base")
+  let rootName := dec (a.get "root")
+  let mp := (splitList "/" (a.get "mp")).map dec
+  let ents := (splitList ";" (a.get "ents")).filterMap parseEntry
+  let table := parseMatchTable (a.get "mtab")
+  let o : ScanOptions :=
+    { exclusions := parsePatterns (a.get "ex"), excludeExternal := a.get "xx" != "0",
+      levelLimit := natOpt (a.get "lim"), externalExclusions := parsePatterns (a.get "eex") }
+  let mAns := match generateGraph (tableMatches table) base rootName mp (ents.map (·.1)) o with
+    | .error k => "ERR:" ++ errName k
+    | .ok g => renderGraph g
+  let sents : List PtaSpec.SEntry := ents.map fun (e, x) =>
+    let name := match e.rel.getLast? with | some n => n | none => []
+    { rel := e.rel, isDir := e.isDir, isPy := !e.isDir && isPyFile name, stem := dropSuffix name,
+      excludedHere := x, stmts := e.stmts.map toSStmt }
+  let smods := PtaSpec.scanModules rootName sents mp
+  let sAns := match PtaSpec.scanImports rootName sents mp with
+    | none => "ERR"
+    | some is => s!"nodes:{joinStr "," (canonSet (smods.map renderName))}|imps:{joinStr "," (canonSet (is.map fun (e : PtaSpec.Name × PtaSpec.Name) => renderName e.1 ++ ">" ++ renderName e.2))}"
+  s!"M={mAns} S={sAns}"
+
+/-- names the external-exclusion filter will be asked about (importees and their parents, module names) -/
+def handleScanNames (a : Args) : String :=
+  let base := dec (a.get "base")
+  let rootName := dec (a.get "root")
+  let mp := (splitList "/" (a.get "mp")).map dec
+  let ents := ((splitList ";" (a.get "ents")).filterMap parseEntry).map (·.1)
+  let table := parseMatchTable (a.get "mtab")
+  let o : ScanOptions := { exclusions := parsePatterns (a.get "ex"), excludeExternal := false }
+  match generateGraph (tableMatches table) base rootName mp ents o with
+  | .error k => "Q=ERR:" ++ errName k
+  | .ok g => "Q=" ++ joinStr "," (canonSet (g.nodes.map enc))
+
+def handleOpts (a : Args) : String :=
+  let b (k : String) : Bool := a.get k == "1"
+  let o : EntryOptions := ⟨b "ex", b "rex", b "eex", b "reex", b "xx", b "inside"⟩
+  match entryOptionsError o with
+  | some k => "M=ERR:" ++ errName k
+  | none => "M=OK"
+
 def handle (line : String) : String :=
   let (op, a) := parseArgs line
   if op == "rule" then handleRule a
   else if op == "query" then handleQuery a
   else if op == "graph" then handleGraph a
   else if op == "glob" then handleGlob a
+  else if op == "label" then handleLabel a
+  else if op == "scan" then handleScan a
+  else if op == "opts" then handleOpts a
+  else if op == "scannames" then handleScanNames a
   else if op == "larch" then handleLArch a
   else if op == "layer" then handleLayer a
   else if op == "layerof" then "M=" ++ handleLayerOf a
